@@ -40,7 +40,9 @@ var homeDir, _ = os.Getwd()
 
 var targetKinds = []string{"plain", "plain", "plain", "nested", "nested", "existing", "existing", "existing-short", "existing-docx",
 	"devfull", "parent-is-file", "is-dir", "symlink", "symlink-dangling", "relative", "bare", "dotdot", "longname",
-	"name-too-long", "empty", "unicode", "inplace", "procfs"}
+	"name-too-long", "empty", "unicode", "inplace", "procfs",
+	// names Save has to take literally: white space at the outer ends of the path or of a component, no / another extension
+	"ws-trailing", "ws-leading", "ws-newline", "ws-component", "noext", "otherext"}
 
 func plainTarget(dir string) target {
 	p := filepath.Join(dir, "out.docx")
@@ -138,6 +140,18 @@ func mkTarget(kind, dir, src string) target {
 		t = target{kind: kind, arg: "", cwd: dir, wantErr: true}
 	case "unicode":
 		t = abs(filepath.Join(dir, "données 文档 \U0001F600 ß.docx"))
+	case "ws-trailing": // e.g. a name taken from a configuration line with a blank at its end
+		t = abs(filepath.Join(dir, "ws") + "/report.docx ")
+	case "ws-leading": // a relative path in new directories that begins with a blank
+		t = target{kind: kind, arg: " drafts/v1/report.docx", cwd: dir, read: dir + "/ drafts/v1/report.docx"}
+	case "ws-newline": // a name read from a file together with its line end; a tab in front
+		t = abs(dir + "/\tout.docx\n")
+	case "ws-component": // white space at the ends of inner components and of the file name
+		t = abs(dir + "/ a /b\t/ out .docx")
+	case "noext":
+		t = abs(filepath.Join(dir, "report"))
+	case "otherext":
+		t = abs(filepath.Join(dir, "Report.v1.DOCX.tmp"))
 	case "inplace":
 		if src != "" {
 			t = abs(src)
@@ -359,6 +373,13 @@ var extraNamesWide = []string{
 	"word/media/图片 1.png", "customXml/données é.xml", "a/b/c/d/e/f/g.bin", "customXml/_rels/item1.xml.rels", "[trash]/0000.dat", "word/embeddings/Microsoft_Excel_Sheet1.xlsx",
 }
 
+// extraDatas: contents of foreign parts. Next to empty / plain / binary ones, the forms of legal XML text whose first or
+// last bytes a writer might be tempted to normalise: a UTF-8 byte order mark (with and without a declaration, alone),
+// UTF-16 with its mark, white space or line ends around the document, CRLF line ends, a NUL at the end.
+var extraDatas = []string{"", "", "<?xml version=\"1.0\"?><a/>", "\x00\x01binary\xff", " ", "\t\n", "\ufeff<a/>",
+	"\ufeff<?xml version=\"1.0\" encoding=\"UTF-8\" standalone=\"yes\"?>\r\n<a>\r\n</a>\r\n", "\ufeff", "\ufeff\ufeff<a/>",
+	"\xff\xfe<\x00a\x00/\x00>\x00", "\n  <a/>\n\n", "<a/>\x00", "<a> x </a> \t"}
+
 func genExtras(t *rapid.T, wide bool) []Extra {
 	n := rapid.IntRange(1, 5).Draw(t, "nextra")
 	many := false
@@ -377,7 +398,7 @@ func genExtras(t *rapid.T, wide bool) []Extra {
 		}
 		e := Extra{Name: rapid.SampledFrom(names).Draw(t, "xname")}
 		if !strings.HasSuffix(e.Name, "/") {
-			e.Data = rapid.SampledFrom([]string{"", "", "<?xml version=\"1.0\"?><a/>", "\x00\x01binary\xff", " ", "\t\n", "\ufeff<a/>"}).Draw(t, "xdata")
+			e.Data = rapid.SampledFrom(extraDatas).Draw(t, "xdata")
 			if wide && rapid.IntRange(0, 7).Draw(t, "xbig") == 0 {
 				// sizes around the zip writer's 4 KiB buffer and past 64 KiB
 				e.Size = rapid.SampledFrom([]int{4095, 4096, 4097, 65535, 65536, 70000}).Draw(t, "xsize")
